@@ -17,11 +17,12 @@
                               `remaining + 1` iterations), `fuel_irrelevant` (the fuel changes no result),
                               `work_indep_of_declared_count` / `repeatN_ok_count` (count-driven loops are
                               cut off by the input, not by the declared count), `decodeT_consumes`
-                              (≥ 1 byte per decoded element), `alloc_linear_*` (nodes built ≤ bytes consumed).
-                              The model carries no step counter, so "work" is expressed through these
-                              iteration bounds rather than a ghost `steps` value; a type-dependent
-                              constant (nesting depth of `Ty`) multiplies the per-byte work of nested
-                              typed decoding.  `skip`'s stack bound is C06 (`skip_stack_le_consumed`).
+                              (≥ 1 byte per decoded element); and with an explicit step count
+                              (`Dec.Cost`, an upper-bound semantics over the model's own program text):
+                              `work_linear_accessors`, `work_linear_skip` (≤ 42·(consumed+1) steps),
+                              `work_linear_decodeT` (≤ workK t·(consumed+1), `workK t` type-dependent),
+                              `work_linear_tokens` (≤ 7·len + 6).  `skip`'s stack bound is C06
+                              (`skip_stack_le_consumed`).
   * position ................ `suffix_*` (`Dec.Suffix`), `pos_in_bounds`, `pos_monotone`, `pos_token`,
                               `pos_skip`, `pos_stuck_past_end*`
   * memory .................. `alloc_linear_decodeT`, `alloc_linear_stringIter`, `alloc_linear_bytes`,
@@ -33,6 +34,7 @@
   `set_position` are `drop`/re-run in the driver, covered by `pos_stuck_past_end` for p ≥ len.
 -/
 import Minicbor.Lemmas.TotalTok
+import Minicbor.Lemmas.TotalWorkTok
 import Minicbor.Lemmas.TotalArrayVec
 
 namespace Minicbor.C02
@@ -277,6 +279,56 @@ theorem work_indep_of_declared_count {α : Type} {m : Dec α} (hc : Consumes m 1
 theorem repeatN_ok_count {α : Type} {m : Dec α} (hc : Consumes m 1) (bs : Bytes) (n : Nat) (l : List α)
     (r : Bytes) (h : Dec.repeatN m n bs = .ok l r) : n + r.length ≤ bs.length :=
   repeatN_ok_le hc bs n l r h
+
+/-! ### work_linear with an explicit step count
+
+`Dec.Cost m bs n` (Lemmas/TotalWork.lean): evaluating `m` on `bs` along the model's own program
+text performs `n` primitive decoder operations (`current`/`read`/`peek` = 1, `read_slice(k)` =
+`1 + k` on success — charging the bytes handed out covers UTF-8 validation and copies —, bind =
+sum of what actually ran).  `Dec.Lin K m`: on every input there is such an `n` with
+`n ≤ K * (consumed + 1)`, and the position does not move back. -/
+
+/-- every accessor, both iterators drained, and `skip` (both builds): at most
+    `42 * (consumed + 1)` primitive steps on any input. -/
+theorem work_linear_accessors : Accessors (fun {α} (m : Dec α) => Lin 42 m) :=
+  { bool := .of_linC LinC.bool (by omega) (by omega), int := fun t => .of_linC (LinC.intAcc t) (by omega) (by omega)
+    f16 := .of_linC LinC.f16 (by omega) (by omega), f32 := fun h => .of_linC (LinC.f32 h) (by omega) (by omega)
+    f64 := fun h => .of_linC (LinC.f64 h) (by omega) (by omega), char := .of_linC LinC.char (by omega) (by omega)
+    bytes := .of_linC LinC.bytes (by omega) (by omega), str := .of_linC LinC.str (by omega) (by omega)
+    bytesIter := (Lin.stringIter false).mono (by omega) (by omega)
+    strIter := (Lin.stringIter true).mono (by omega) (by omega)
+    array := .of_linC LinC.array (by omega) (by omega), map := .of_linC LinC.map (by omega) (by omega)
+    tag := .of_linC LinC.tag (by omega) (by omega), null := .of_linC LinC.null (by omega) (by omega)
+    undefined := .of_linC LinC.undefined (by omega) (by omega), simple := .of_linC LinC.simple (by omega) (by omega)
+    datatype := .of_linC LinC.datatype (by omega) (by omega), skip := Lin.skip }
+
+/-- **work_linear** for typed decoding: for every type `t` there is a constant `t.workK`
+    (depending on the type only: it doubles per container nesting level) such that on EVERY
+    input `decode::<t>` — succeeding or failing — performs at most `workK t * (consumed + 1)`
+    primitive steps.  In particular the work is independent of every length the input declares. -/
+theorem work_linear_decodeT (t : Ty) (bs : Bytes) :
+    ∃ n, Cost (decodeT t) bs n ∧ ∀ r, (decodeT t bs).rest? = some r →
+      r.length ≤ bs.length ∧ n ≤ t.workK * (bs.length - r.length + 1) :=
+  (decodeT_lin t).bound bs
+
+/-- the same for `skip`, spelled out. -/
+theorem work_linear_skip (alloc : Bool) (bs : Bytes) :
+    ∃ n, Cost (Dec.skip alloc) bs n ∧ ∀ r, (Dec.skip alloc bs).rest? = some r →
+      r.length ≤ bs.length ∧ n ≤ 42 * (bs.length - r.length + 1) :=
+  (Lin.skip alloc).bound bs
+
+/-- the tokenizer run to exhaustion: the `token()` calls together take at most `7 * len + 6`
+    primitive steps. -/
+theorem work_linear_tokens (bs : Bytes) : ∃ n, TokenizeCost (bs.length + 1) bs n ∧ n ≤ 7 * bs.length + 6 :=
+  tokenize_work _ bs (Nat.lt_succ_self _)
+
+/-- the step count is not vacuous: `null()` on `f6` is one `read`; on the empty input it is
+    also one (failing) `read`. -/
+example : Cost Dec.null [0xf6] 1 ∧ Cost Dec.null [] 1 := by
+  unfold Dec.null
+  constructor
+  · exact Cost.bind_ok (n1 := 1) (n2 := 0) (a := 0xf6) (r := []) rfl (Cost.read _) (Cost.pure _ _)
+  · exact Cost.bind_stop (by intro a r h; cases h) (Cost.read _)
 
 /-! ## ArrayVec: every pushed element is moved out or dropped exactly once -/
 
